@@ -354,6 +354,32 @@ DIRECTED = [
 ]
 
 
+DIRECTED += [
+    # a `for` statement asks its iterable for `iter()` and the iterator for `next()` the way any call `x.iter()` / `it.next()` does:
+    # a field holding a closure comes before a method of the class, a method defined by a subclass before the inherited one
+    ("for-loops-call-iter-and-next-like-any-other-call",
+     '#[constructor(new)] class Plain { }\n'
+     'fn counter(n) { var it = Plain.new(); var i = 0; it.next = || { if i >= n { return StopIter.new(); } i = i + 1; return i * 10; }; it.iter = || it; return it; }\n'
+     'var src = Plain.new(); src.iter = || counter(3); for x in src { print(x); }\n'
+     '#[derive(Iter)] class Up { #[constructor] fn new(self) { self.i = 0; } fn iter(self) { return self; } fn next(self) { self.i = self.i + 1; if self.i > 2 { return StopIter.new(); } return self.i; } }\n'
+     'for x in Up.new() { print(x); }\n'
+     'var shadow = Up.new(); var k = 0; shadow.next = || { k = k + 1; if k > 2 { return StopIter.new(); } return "field ${k}"; }; for x in shadow { print(x); } print(shadow.i);\n'
+     'var sh2 = Up.new(); sh2.iter = || [7, 8].iter(); for x in sh2 { print(x); }\n'
+     '#[derive(Up)] class Down { #[constructor] fn new(self) { super.new(); } fn next(self) { self.i = self.i + 1; if self.i > 2 { return StopIter.new(); } return -self.i; } }\n'
+     'for x in Down.new() { print(x); }\n'
+     'var total = 0; for a in counter(2) { for b in counter(2) { total = total + a + b; } } print(total);',
+     ["10", "20", "30", "1", "2", "field 1", "field 2", "0", "7", "8", "-1", "-2", "120"]),
+    # an index expression with a range yields a NEW vector: the slice and the vector sliced never share storage, whichever part is taken
+    ("slices-are-new-vectors",
+     'var v = [1, 2, 3];\n'
+     'for r in [0..3, 0..2, 1..3, -3..3, -3..-1, 0..0, 1..1] { var c = v[r]; c.push(99); print(v); }\n'
+     'var w = [1, 2, 3]; var whole = w[0..w.len()]; w.push(4); print(whole); whole[0] = "x"; print(w); print(whole == w); print(w[0..4] == w);\n'
+     'var neg = w[-4..4]; neg.pop(); print(w.len()); var e = []; print(e == e); var t = (1, 2); print(t[0..2] == t); var s = "abc"; print(s[0..3] == s);\n'
+     'var nested = [[1], [2]]; var cp = nested[0..2]; cp[0].push(5); cp.push([3]); print(nested);',
+     ["[1, 2, 3]"] * 7 + ["[1, 2, 3]", "[1, 2, 3, 4]", "false", "true", "4", "true", "true", "true", "[[1, 5], [2]]"]),
+]
+
+
 ASSIGN_OPS = {"=": "3", "+=": "11", "-=": "5", "*=": "24", "/=": "2.6666666666666665", "%=": "2", "&=": "0", "|=": "11", "^=": "11", "<<=": "64", ">>=": "1"}
 ASSIGN_TARGETS = {"local": "loc", "global": "glob", "property": "c.n", "index": "v[0]", "self-field": None, "nested-index": "w[0][0]", "chained": "c.inner.n"}
 # an assignment may not stand where an operand of a tighter-binding operator is expected ...
